@@ -146,6 +146,18 @@ def check(case, rec=None):
                 if d > 1.5 * abs(m1 - m2) * emax ** 2 + 1e-10:
                     fails.append(fail("firstorder", "E(m=%g) and E(m=%g) differ by %g > 1.5|dm|e^2 (e=%g)" %
                                       (m1, m2, d, emax), m=m1))
+    # the reference matrix from cell parameters (finite_strain.cell_to_B), for two reference cells that differ in the
+    # sixth digit (a d0 scan): each gets its own B, and a grain with exactly the reference cell has no strain
+    near = [x * (1 + 3e-6) for x in case["cell"][:3]] + list(case["cell"][3:])
+    guard(finite_strain.cell_to_B, near)
+    ok, Bc = guard(finite_strain.cell_to_B, list(case["cell"]))
+    if not ok:
+        fails.append(exc_failure("cell_to_B", Bc))
+    elif np.abs(np.asarray(Bc, float) - B0).max() > 1e-12 * np.abs(B0).max():
+        fails.append(fail("closedform", "cell_to_B(%s) after cell_to_B of a cell 3e-6 larger differs from the B matrix of "
+                          "the cell by %.3g (relative)" % (np.round(case["cell"], 6).tolist(),
+                                                           np.abs(np.asarray(Bc, float) - B0).max() / np.abs(B0).max()),
+                          fn="cell_to_B"))
     # DeformationGradientTensor used directly: one object, both frames, all m, both call orders
     ub0 = U0 @ B0
     for order in ("ref_first", "lab_first"):
